@@ -298,7 +298,7 @@ type chainOp struct {
 	Msg  string `json:"msg"`
 }
 
-func runChainOps(e *emitter, ops []chainOp, gen string) {
+func runChainOps(e *emitter, ops []chainOp, gen string, key ...string) {
 	hs := []*errchain.PlError{}
 	snaps := []any{}
 	for _, o := range ops {
@@ -329,7 +329,11 @@ func runChainOps(e *emitter, ops []chainOp, gen string) {
 		snaps = append(snaps, snap)
 	}
 	e.stat(gen)
-	e.emit(map[string]any{"k": "chainops", "ops": ops, "snaps": snaps, "gen": gen, "key": fmt.Sprint(ops)})
+	k := fmt.Sprint(ops)
+	if len(key) > 0 {
+		k = key[0]
+	}
+	e.emit(map[string]any{"k": "chainops", "ops": ops, "snaps": snaps, "gen": gen, "key": k})
 }
 
 func genC17Chain(e *emitter, tier string, rng *rand.Rand) {
@@ -365,6 +369,11 @@ func genC17Chain(e *emitter, tier string, rng *rand.Rand) {
 			}
 		}
 		rec(start, 1, depth)
+	}
+	// a message that is not valid UTF-8 (an identifier with a raw 0xFF byte, a name spelled with \xfe):
+	// recorded finding - the JSON form cannot carry the byte
+	for _, m := range []string{"unsupported func: `a\xffb`", "script \xfe.p not found"} {
+		runChainOps(e, []chainOp{{Op: "new", File: hx("a.p"), Ln: 1, Col: 1, Pos: 0, Msg: hx(m)}, {Op: "append", H: 0, File: hx("m.p"), Ln: 2, Col: 3, Pos: 7}}, "chain-message-bytes", "c17:message-not-utf8-json-round-trip")
 	}
 	N := 300
 	if tier == "thorough" {
